@@ -1994,6 +1994,9 @@ def moveaxis(a, source, destination):
     source = normalize_axis(source, a.ndim)
     destination = normalize_axis(destination, a.ndim)
 
+    if len(set(destination)) < len(destination):
+        raise ValueError("repeated axis in `destination` argument")
+
     if len(source) != len(destination):
         raise ValueError("`source` and `destination` arguments must have the same number of elements")
 
